@@ -241,6 +241,76 @@ fn points(tier: Tier) -> Vec<Point> {
             }
         }
     }
+    // every builder field survives every later setter: one field is made invalid, then each of the other
+    // setters is called with a valid argument; the builder must still be rejected for that field
+    {
+        type WB = WTinyLFUCacheBuilder<u64, KH, HB, HB, HB>;
+        fn base() -> WB {
+            WTinyLFUCacheBuilder::<u64, KH, HB, HB, HB>::with_hashers(KH(KHKind::Identity), HB::new(HKind::SipA), HB::new(HKind::SipA), HB::new(HKind::SipA))
+                .set_samples(3)
+                .set_window_cache_size(1)
+                .set_protected_cache_size(1)
+                .set_probationary_cache_size(2)
+        }
+        let invalid: Vec<(&'static str, &'static str, fn(WB) -> WB)> = vec![
+            ("set_false_positive_ratio(1.5)", "invalid false positive ratio", |b| b.set_false_positive_ratio(1.5)),
+            ("set_false_positive_ratio(NaN)", "invalid false positive ratio", |b| b.set_false_positive_ratio(f64::NAN)),
+            ("set_samples(0)", "invalid number of samples", |b| b.set_samples(0)),
+            ("set_window_cache_size(0)", "invalid window cache size", |b| b.set_window_cache_size(0)),
+            ("set_protected_cache_size(0)", "invalid protected cache size", |b| b.set_protected_cache_size(0)),
+            ("set_probationary_cache_size(0)", "invalid probationary cache size", |b| b.set_probationary_cache_size(0)),
+        ];
+        for (iname, msg, inv) in invalid {
+            fn fin<E: std::fmt::Display>(r: Result<WTinyLFUCache<u64, u64, KH, HB, HB, HB>, E>) -> Result<(), String> {
+                r.map(smoke).map_err(|e| format!("{}", e))
+            }
+            pt!(format!("WTinyLFUCacheBuilder: {} then set_window_hasher", iname), Expect::Err(vec![msg]), move || fin(inv(base()).set_window_hasher(HB::new(HKind::Fnv)).finalize::<u64>()));
+            pt!(format!("WTinyLFUCacheBuilder: {} then set_protected_hasher", iname), Expect::Err(vec![msg]), move || fin(inv(base()).set_protected_hasher(HB::new(HKind::Fnv)).finalize::<u64>()));
+            pt!(format!("WTinyLFUCacheBuilder: {} then set_probationary_hasher", iname), Expect::Err(vec![msg]), move || fin(inv(base()).set_probationary_hasher(HB::new(HKind::Fnv)).finalize::<u64>()));
+            pt!(format!("WTinyLFUCacheBuilder: {} then set_key_hasher", iname), Expect::Err(vec![msg]), move || fin(inv(base()).set_key_hasher(KH(KHKind::Spread)).finalize::<u64>()));
+            if !iname.starts_with("set_samples") {
+                pt!(format!("WTinyLFUCacheBuilder: {} then set_samples(4)", iname), Expect::Err(vec![msg]), move || fin(inv(base()).set_samples(4).finalize::<u64>()));
+            }
+            if !iname.starts_with("set_window") {
+                pt!(format!("WTinyLFUCacheBuilder: {} then set_window_cache_size(2)", iname), Expect::Err(vec![msg]), move || fin(inv(base()).set_window_cache_size(2).finalize::<u64>()));
+            }
+            if !iname.starts_with("set_protected") {
+                pt!(format!("WTinyLFUCacheBuilder: {} then set_protected_cache_size(2)", iname), Expect::Err(vec![msg]), move || fin(inv(base()).set_protected_cache_size(2).finalize::<u64>()));
+            }
+            if !iname.starts_with("set_probationary") {
+                pt!(format!("WTinyLFUCacheBuilder: {} then set_probationary_cache_size(3)", iname), Expect::Err(vec![msg]), move || fin(inv(base()).set_probationary_cache_size(3).finalize::<u64>()));
+            }
+            if !iname.starts_with("set_false") {
+                pt!(format!("WTinyLFUCacheBuilder: {} then set_false_positive_ratio(0.2)", iname), Expect::Err(vec![msg]), move || fin(inv(base()).set_false_positive_ratio(0.2).finalize::<u64>()));
+            }
+        }
+        // the same for the other builders: an invalid size / ratio followed by each hasher setter
+        for (rname, rr, gr, msg) in [("recent ratio 1.5", 1.5f64, 0.5f64, "InvalidRecentRatio"), ("ghost ratio NaN", 0.25, f64::NAN, "InvalidGhostRatio"), ("ghost ratio -0.1", 0.25, -0.1, "InvalidGhostRatio")] {
+            let mk = move || TwoQueueCacheBuilder::new(4).set_recent_ratio(rr).set_ghost_ratio(gr);
+            pt!(format!("TwoQueueCacheBuilder: {} then set_recent_hasher", rname), Expect::Err(vec![msg]), move || mk().set_recent_hasher(HB::new(HKind::Fnv)).finalize::<u64, u64>().map(smoke).map_err(err_of));
+            pt!(format!("TwoQueueCacheBuilder: {} then set_frequent_hasher", rname), Expect::Err(vec![msg]), move || mk().set_frequent_hasher(HB::new(HKind::Fnv)).finalize::<u64, u64>().map(smoke).map_err(err_of));
+            pt!(format!("TwoQueueCacheBuilder: {} then set_ghost_hasher", rname), Expect::Err(vec![msg]), move || mk().set_ghost_hasher(HB::new(HKind::Fnv)).finalize::<u64, u64>().map(smoke).map_err(err_of));
+            pt!(format!("TwoQueueCacheBuilder: {} then set_size(5)", rname), Expect::Err(vec![msg]), move || mk().set_size(5).finalize::<u64, u64>().map(smoke).map_err(err_of));
+        }
+        pt!("TwoQueueCacheBuilder: size 0 then the three hasher setters".to_string(), Expect::Err(vec!["InvalidSize"]), move || {
+            TwoQueueCacheBuilder::new(0).set_recent_hasher(HB::new(HKind::Fnv)).set_frequent_hasher(HB::new(HKind::Zero)).set_ghost_hasher(HB::new(HKind::SipB)).finalize::<u64, u64>().map(smoke).map_err(err_of)
+        });
+        pt!("AdaptiveCacheBuilder: size 0 then the four hasher setters".to_string(), Expect::Err(vec!["InvalidSize"]), move || {
+            caches::AdaptiveCacheBuilder::new(0)
+                .set_recent_hasher(HB::new(HKind::Fnv))
+                .set_frequent_hasher(HB::new(HKind::Zero))
+                .set_recent_evict_hasher(HB::new(HKind::SipB))
+                .set_frequent_evict_hasher(HB::new(HKind::SipA))
+                .finalize::<u64, u64>()
+                .map(smoke)
+                .map_err(err_of)
+        });
+        for (pb, ptn, msg) in [(0usize, 2usize, "InvalidSize"), (2, 0, "InvalidSize")] {
+            pt!(format!("SegmentedCacheBuilder: sizes ({}, {}) then the two hasher setters", pb, ptn), Expect::Err(vec![msg]), move || {
+                caches::SegmentedCacheBuilder::new(pb, ptn).set_probationary_hasher(HB::new(HKind::Fnv)).set_protected_hasher(HB::new(HKind::Zero)).finalize::<u64, u64>().map(smoke).map_err(err_of)
+            });
+        }
+    }
     for &n in &[0usize, 1, 5, 99, 100, 200] {
         for &s in &[0usize, 4] {
             // the window is 1% of size: sizes below 100 have no window and must be refused, not panic
